@@ -1,6 +1,7 @@
 package props
 
 import (
+	"encoding/hex"
 	"encoding/json"
 	"fmt"
 	"strings"
@@ -136,6 +137,7 @@ type c06Case struct {
 	Kind string   `json:"kind"`
 	Byte int      `json:"byte,omitempty"`
 	Seqs []string `json:"seqs,omitempty"`
+	Hex  []string `json:"hex,omitempty"` // kind hibytes: the rows, hex encoded (JSON strings cannot carry bytes >= 0x80)
 }
 
 const (
@@ -233,6 +235,30 @@ func c06Tasks(tier string) []mc.Task {
 			c06Split(string(s), n, func(parts []string) { c06Check(c, c06Case{Kind: "bag", Seqs: parts}) })
 		}
 	}
+	// (v) sequence sets holding bytes >= 0x80: case folding and un-aligning only
+	ts = append(ts, mc.Task{Name: "hibytes#all", Run: func(c *mc.Ctx) {
+		const hb = "Ac-\xe9\xc3\xa9"
+		for T := 1; T <= 4; T++ {
+			forEachStringLen(hb, T, nil, func(s []byte) bool {
+				hi := false
+				for _, b := range s {
+					hi = hi || b >= 0x80
+				}
+				if hi {
+					for n := 1; n <= 2; n++ {
+						c06Split(string(s), n, func(parts []string) {
+							hx := make([]string, len(parts))
+							for i, p := range parts {
+								hx[i] = hex.EncodeToString([]byte(p))
+							}
+							c06Check(c, c06Case{Kind: "hibytes", Hex: hx})
+						})
+					}
+				}
+				return true
+			})
+		}
+	}})
 	bag2Max, bag3Max := 5, 4
 	if thorough {
 		bag2Max, bag3Max = 6, 5
@@ -420,6 +446,76 @@ func (k *c06Checker) fold(op string, apply func(align.SeqBag), in, want rows) {
 	}
 }
 
+// hiBytes: case folding and un-aligning of sequence sets that hold bytes >= 0x80 (not residues of any
+// alphabet, but sequence sets are arbitrary byte rows).  Such a byte has no ASCII case: what the
+// transform does to it is not compared (goalign folds it as a Latin-1 letter), but the row keeps its
+// length, every 7-bit byte is folded exactly, and a second application changes nothing.
+func (k *c06Checker) hiBytes() {
+	in := namedRows(k.seqs...)
+	for _, op := range []string{"ToUpper", "ToLower", "Unalign"} {
+		sb := align.SeqBag(align.NewSeqBag(align.UNKNOWN))
+		for i, s := range k.seqs {
+			if err := sb.AddSequence(rowNames[i], s, ""); err != nil {
+				k.c.Fatal("cannot build input %s: %v", jsonStr(k.cs), err)
+				return
+			}
+		}
+		apply := func() {
+			switch op {
+			case "ToUpper":
+				sb.ToUpper()
+			case "ToLower":
+				sb.ToLower()
+			case "Unalign":
+				sb = sb.Unalign()
+			}
+		}
+		if !k.call(op, apply) {
+			return
+		}
+		got := readRows(sb)
+		if len(got) != len(in) {
+			k.viol(op, "row-count", fmt.Sprintf("%d rows from %d", len(got), len(in)))
+			return
+		}
+		for i, r := range in {
+			want := r.Seq
+			switch op {
+			case "ToUpper":
+				want = c06MapBytes(want, upper)
+			case "ToLower":
+				want = c06MapBytes(want, c06Lower)
+			case "Unalign":
+				want = ungap(want)
+			}
+			if got[i].Name != r.Name || len(got[i].Seq) != len(want) {
+				k.viol(op, "row-length", fmt.Sprintf("row %q becomes %q (expected %d bytes)", r.Seq, got[i].Seq, len(want)))
+				return
+			}
+			for j := 0; j < len(want); j++ {
+				if want[j] < 0x80 && got[i].Seq[j] != want[j] {
+					k.viol(op, "residues", fmt.Sprintf("row %q becomes %q, expected %q at the 7-bit positions", r.Seq, got[i].Seq, want))
+					return
+				}
+				if want[j] >= 0x80 && got[i].Seq[j] < 0x80 {
+					k.viol(op, "residues", fmt.Sprintf("row %q becomes %q: a byte >= 0x80 turned into a 7-bit character", r.Seq, got[i].Seq))
+					return
+				}
+			}
+		}
+		first := got
+		if !k.call(op, apply) {
+			return
+		}
+		if again := readRows(sb); !sameRows(again, first) {
+			k.viol(op, "idempotence", fmt.Sprintf("applied twice: %v then %v", first, again))
+			return
+		}
+		k.c.Outcome(op + ":hibytes-ok")
+	}
+	k.c.Nontrivial("hibytes|" + strings.Join(k.seqs, "|"))
+}
+
 // bagOps runs every SeqBag-level transform of the property on the case.
 // Each transform starts from a fresh copy of the input.  The last clause of
 // the statement (de-gapped content preserved) follows from the exact
@@ -509,6 +605,18 @@ func c06Check(c *mc.Ctx, cs c06Case) {
 	c.Eval()
 	k := &c06Checker{c: c, cs: cs, seqs: cs.Seqs}
 	switch cs.Kind {
+	case "hibytes":
+		k.seqs = nil
+		for _, h := range cs.Hex {
+			b, err := hex.DecodeString(h)
+			if err != nil {
+				c.Fatal("bad hex row in %s", jsonStr(cs))
+				return
+			}
+			k.seqs = append(k.seqs, string(b))
+		}
+		k.hiBytes()
+		return
 	case "byte":
 		k.seqs = []string{string([]byte{byte(cs.Byte)})}
 		k.sequenceOps(k.seqs[0])
@@ -522,7 +630,7 @@ func init() {
 	mc.Register(&mc.Prop{
 		ID:    "C06",
 		Level: "exploration",
-		Rule: "bounded-exhaustive enumeration; on every case: ReverseComplement and ReverseComplementSequences for every subset of {row names} + {one unknown name}, each applied twice (involution), " +
+		Rule: "(sequence sets of 1-2 rows, total length <= 4, over {A,c,-,0xE9,0xC3,0xA9} with at least one byte >= 0x80: ToUpper/ToLower/Unalign keep row lengths, fold the 7-bit bytes exactly and are idempotent;) bounded-exhaustive enumeration; on every case: ReverseComplement and ReverseComplementSequences for every subset of {row names} + {one unknown name}, each applied twice (involution), " +
 			"ToUpper and ToLower each applied twice (idempotence), Unalign; results compared row by row (names, order, residues, Length()) with the IUPAC complement derived from base sets. Cases: " +
 			"(i) all 256 byte values as a 1x1 alignment with the alphabet forced to nucleotide, also through align.Complement/Reverse and Sequence.Complement/Reverse; " +
 			"(ii) every single row of length 0..4 over the 35 symbols ACGTRYSWKMBDHVN acgtryswkmbdhvn - . * U u and of length 5..6 (quick) / 5..7 (thorough) over {A,c,K,m,B,-,.,*}, also through the Sequence-level functions; " +
